@@ -47,7 +47,7 @@ class LazyConversion:
     @property
     def inherited(self) -> Optional[bool]:
         conversion = self.get()
-        return isinstance(conversion, Conversion) and conversion.inherited
+        return conversion.inherited if isinstance(conversion, Conversion) else None
 
 
 ConvOrFunc = Union[Conversion, Converter, property, LazyConversion]
